@@ -688,9 +688,10 @@ func (e *Engine) callByContract(fr *frame, ins ssa.Instruction, fn *ssa.Function
 		e.ghostEvent("logerror", and(reach, calleeLogged), "")
 	}()
 	for _, cl := range c.byKind("ensures") {
-		if usesCallLog(cl.Expr) {
+		if usesCallLog(cl.Expr) || strings.HasPrefix(cl.Label, "I.") {
 			// a clause about the calls the callee makes internally (ghost call log) is proved on the
-			// callee; it says nothing a caller could use
+			// callee; it says nothing a caller could use. Likewise a clause labelled "I.<x>" (internal):
+			// proved on the callee, deliberately not handed to callers (quantified facts no caller needs)
 			continue
 		}
 		pf := e.w.Preds[c.Pkg+"."+cl.Pred]
